@@ -30,7 +30,7 @@ import (
 type verifC03ReaderAt struct{ r *bytes.Reader }
 
 func (v verifC03ReaderAt) ReadAt(p []byte, off int64) (int, error) { return v.r.ReadAt(p, off) }
-func (v verifC03ReaderAt) Close() error                             { return nil }
+func (v verifC03ReaderAt) Close() error                            { return nil }
 
 type verifC03KV struct{ key, val []byte }
 
